@@ -188,3 +188,18 @@ def quadrature(vc):
                                                                                                eq(s2.fields['bg_noise_std'] * s2.fields['bg_noise_std'], c * c)))
     tot = vc.interp.call(vc.interp.getattr(s, 'get_total_noise_std'), [], {})
     vc.ensure('C11/get_total_noise_std/post/own-and-background-in-quadrature', And(tot >= 0, eq(tot * tot, a * a + b * b + c * c)))
+    # a second background addition: the shared background deviation itself adds in quadrature and is what every antenna stream sees
+    c2 = Real('std_bg2')
+    vc.assume(c2 >= 0)
+    vc.interp.call(vc.interp.getattr(bg, 'add_noise'), [0, c2], {})
+    bgn = bg.fields['noise_std']
+    vc.ensure('C11/BackgroundDataStream.add_noise/post/second-addition-in-quadrature-and-propagated-as-is',
+              And(bgn >= 0, eq(bgn * bgn, c * c + c2 * c2), eq(s.fields['bg_noise_std'], bgn), eq(s2.fields['bg_noise_std'], bgn)))
+    tot2 = vc.interp.call(vc.interp.getattr(s, 'get_total_noise_std'), [], {})
+    vc.ensure('C11/get_total_noise_std/post/own-and-accumulated-background-in-quadrature', And(tot2 >= 0, eq(tot2 * tot2, a * a + b * b + c * c + c2 * c2)))
+    # _set_all_bg_noise from an arbitrary state: every antenna stream's background deviation becomes this stream's deviation
+    bg.fields['noise_std'] = Real('any_bg_std')
+    s.fields['bg_noise_std'], s2.fields['bg_noise_std'] = Real('stale1'), Real('stale2')
+    r = vc.call('setigen.voltage.data_stream:BackgroundDataStream._set_all_bg_noise', bg)
+    vc.ensure('C11/_set_all_bg_noise/post/every-antenna-stream-sees-exactly-the-background-deviation',
+              And(r.ok, eq(s.fields['bg_noise_std'], Real('any_bg_std')), eq(s2.fields['bg_noise_std'], Real('any_bg_std'))))
